@@ -33,7 +33,7 @@ open Blots Blots.Gen Blots.Units
     for coulombs (#140), so it never resolves: a genuine defect of the table
     (finding `c17.identifier-unresolvable`).  Hand-written, NOT generated: a new duplicate in the
     table makes `every_identifier_resolves_partial` fail to elaborate. -/
-def knownShared : List (List Nat) := [codesOf "c"]
+def knownShared : List (List Nat) := []
 
 /-- the unit owning the lower-cased spelling of `q` according to the generated certificate
     (`units.length` when several units have an alias with that lower-case) -/
@@ -56,16 +56,11 @@ theorem every_identifier_resolves_partial (i : Nat) (u : UnitRow) (q : List Nat)
     decide +kernel
   exact resolve_of_cert _ knownShared units hc i u hi q hq hk
 
-/-- the proved negation of the full statement: `"c"` is listed for celsius and does not resolve -/
-theorem every_identifier_resolves_counterexample :
-    ¬ (∀ (i : Nat) (u : UnitRow) (q : List Nat), units[i]? = some u → q ∈ u.ids → resolveCodes q = .ok i) := by
-  intro h
-  have h1 : units[1]? = some (units.getD 1 default) := by decide +kernel
-  have h2 : codesOf "c" ∈ (units.getD 1 default).ids := by decide +kernel
-  have h3 : resolveCodes (codesOf "c") = .ambiguous := by decide +kernel
-  have := h 1 _ _ h1 h2
-  rw [h3] at this
-  cases this
+/-- FULL STATEMENT (holds since the fix that gave coulombs the symbol `C`): every identifier
+    listed for a unit resolves to that unit -/
+theorem every_identifier_resolves (i : Nat) (u : UnitRow) (q : List Nat)
+    (hi : units[i]? = some u) (hq : q ∈ u.ids) : resolveCodes q = .ok i :=
+  every_identifier_resolves_partial i u q hi hq (by simp [knownShared])
 
 /-- an identifier listed verbatim by two different units is reported as ambiguous, never guessed -/
 theorem shared_identifier_is_ambiguous (q : List Nat) (i j : Nat) (u v : UnitRow)
@@ -339,13 +334,10 @@ example : resolveCodes (codesOf "Kilometres") = .ok 4 := by decide +kernel
 example : resolveCodes (codesOf "Mm") = .ok 21 ∧ resolveCodes (codesOf "mm") = .ok 6 := by decide +kernel
 example : resolveCodes (codesOf "MM") = .ambiguous := by decide +kernel       -- mm / Mm
 example : resolveCodes (codesOf "ma") = .ambiguous := by decide +kernel       -- MA / mA
-example : resolveCodes (codesOf "c") = .ambiguous := by decide +kernel        -- listed twice
+example : resolveCodes (codesOf "c") = .ok 1 ∧ resolveCodes (codesOf "C") = .ok 140 := by decide +kernel  -- celsius / coulombs
 example : resolveCodes (codesOf "foobar") = .unknown := by decide +kernel
 example : resolveCodes (codesOf "Ω") = .ok 156 ∧ resolveCodes (codesOf "ω") = .ok 156 := by decide +kernel
 example : resolveCodes [8490] = .ok 0 := by decide +kernel                    -- U+212A KELVIN SIGN ↦ k
--- `knownShared` really is shared (hypotheses of `shared_identifier_is_ambiguous`)
-example : codesOf "c" ∈ (units.getD 1 default).ids ∧ codesOf "c" ∈ (units.getD 140 default).ids := by
-  decide +kernel
 -- `case_variant_resolves` applies to "KM": owner certificate says unit 4
 example : caseOwner (codesOf "KM") = some 4 := by decide +kernel
 -- cross-category hypotheses: km (length) vs kg (mass)
@@ -356,7 +348,7 @@ example : convertQ 1 (codesOf "km") (codesOf "m") = .ok (some 1000) := by decide
 example : convertQ 100 (codesOf "celsius") (codesOf "fahrenheit") = .ok (some 212) := by decide +kernel
 example : convertQ 0 (codesOf "mpg") (codesOf "l/100km") = .ok none := by decide +kernel
 example : convertQ 1 (codesOf "kg") (codesOf "m") = .category := by decide +kernel
-example : convertQ 1 (codesOf "c") (codesOf "f") = .fromAmbiguous := by decide +kernel
+example : convertQ 1 (codesOf "MM") (codesOf "f") = .fromAmbiguous := by decide +kernel
 -- `prefix_ratio` instance: "kilometers" = "kilo" ++ "meters"
 example : codesOf "kilometers" = codesOf "kilo" ++ codesOf "meters" ∧
     (codesOf "kilo", (3 : Int)) ∈ metricPrefixes ∧
